@@ -185,6 +185,26 @@ pub fn run_script_real(script: &Value, tags: &TagFiles, out: &mut dyn Write) -> 
     ok
 }
 
+fn first_iter_flag(line: &Value) -> bool {
+    // the read event that carried the script's descriptors is the first one of its loop
+    line["fds"].as_array().map_or(false, |a| !a.is_empty()) || line["first"].as_bool().unwrap_or(false)
+}
+
+/// try_write with accept-all until nothing is pending, without logging; returns the bytes written
+fn drain_silent(conn: &mut HttpConnection<ScriptStream>, stream: &ScriptStream) -> Vec<u8> {
+    let mut all = vec![];
+    let mut guard = 0;
+    while conn.pending_write() && guard < 10_000 {
+        stream.0.borrow_mut().next_write = Some(WriteScript::Accept(usize::MAX));
+        if catch_unwind(AssertUnwindSafe(|| conn.try_write())).is_err() {
+            break;
+        }
+        all.extend(stream.0.borrow().last_sent.iter());
+        guard += 1;
+    }
+    all
+}
+
 /// Runs one script; writes trace events to `out`.  Returns false if the run panicked.
 pub fn run_script(script: &Value, tags: &TagFiles, out: &mut dyn Write) -> bool {
     if script["real_socket"].as_bool().unwrap_or(false) {
@@ -199,6 +219,11 @@ pub fn run_script(script: &Value, tags: &TagFiles, out: &mut dyn Write) -> bool 
     let keep = script["keep"].as_bool().unwrap_or(false);
     let stop_on_error = script["stop_on_error"].as_bool().unwrap_or(false);
     let mut stopped = false;
+    // C11 (relational): after the first ParseError a NEW connection is fed, in lockstep, exactly the
+    // bytes / descriptors / empty reads the old one receives from then on; both are drained after
+    // every read and their observations are logged side by side.
+    let c11_fresh = script["c11_fresh"].as_bool().unwrap_or(false);
+    let mut fresh: Option<(HttpConnection<ScriptStream>, ScriptStream)> = None;
     let drain_after_read = script["drain_after_read"].as_bool().unwrap_or(false);
     let mut line = json!({"e": "new", "run": script["run"], "fam": script["fam"], "cmp": script["cmp"],
                           "limit": script["limit"], "buf": crate::BUF, "note": script["note"]});
@@ -220,6 +245,7 @@ pub fn run_script(script: &Value, tags: &TagFiles, out: &mut dyn Write) -> bool 
                 }
                 let auto = ev["auto"].as_bool().unwrap_or(true);
                 let mut first = true;
+                let tags_of_read: Vec<i64> = ev["fds"].as_array().map(|a| a.iter().filter_map(|t| t.as_i64()).collect()).unwrap_or_default();
                 loop {
                     let rs = match rk {
                         "data" | "more" => ReadScript::Data(std::mem::take(&mut fds)),
@@ -254,7 +280,7 @@ pub fn run_script(script: &Value, tags: &TagFiles, out: &mut dyn Write) -> bool 
                     line = json!({"e": "read", "kind": lk, "bytes": obs::bytes(&delivered),
                                   "fds": if first && fd_tags.is_array() { fd_tags.take() } else { json!([]) },
                                   "res": res, "recvs": st.recv_calls, "writes": st.write_calls,
-                                  "window": st.last_window, "popped": popped,
+                                  "window": st.last_window, "popped": popped, "first": first,
                                   "pending": if panicked { json!(false) } else { json!(conn.pending_write()) },
                                   "digest": if panicked { json!({"none": true}) } else { digest(&conn) }});
                     let more = !st.rxq.is_empty();
@@ -265,9 +291,62 @@ pub fn run_script(script: &Value, tags: &TagFiles, out: &mut dyn Write) -> bool 
                         ok = false;
                         break;
                     }
-                    if drain_after_read && !drain(&mut conn, &stream, out) {
-                        ok = false;
-                        break;
+                    let was_first = first_iter_flag(&line);
+                    let before = stream.0.borrow().write_calls;
+                    let _ = before;
+                    let mut main_drained: Vec<u8> = vec![];
+                    if drain_after_read {
+                        // log the writes as usual and remember what was written
+                        let mark = conn.pending_write();
+                        if mark {
+                            let mut guard = 0;
+                            while conn.pending_write() && guard < 10_000 {
+                                if !one_write(&mut conn, &stream, &json!({"k": "accept", "n": 1 << 30}), out) {
+                                    ok = false;
+                                    break;
+                                }
+                                main_drained.extend(stream.0.borrow().last_sent.iter());
+                                guard += 1;
+                            }
+                            if !ok {
+                                break;
+                            }
+                        }
+                    }
+                    if c11_fresh {
+                        if let Some((fc, fs)) = fresh.as_mut() {
+                            let ftags: Vec<RawFd> = if was_first { tags_of_read.iter().map(|t| tags.open(*t)).collect() } else { vec![] };
+                            let frs = match lk {
+                                "data" => {
+                                    fs.0.borrow_mut().rxq.extend(delivered.iter());
+                                    ReadScript::Data(ftags)
+                                }
+                                "eof" => ReadScript::Eof(ftags),
+                                _ => ReadScript::Err(libc::EAGAIN),
+                            };
+                            fs.0.borrow_mut().next_read = Some(frs);
+                            let fr = catch_unwind(AssertUnwindSafe(|| fc.try_read()));
+                            let fres = match &fr {
+                                Ok(r) => obs::conn_result(r),
+                                Err(_) => obs::panic_result(),
+                            };
+                            let mut fpopped = vec![];
+                            if fr.is_ok() {
+                                while let Some(rq) = fc.pop_parsed_request() {
+                                    fpopped.push(obs::request(&rq));
+                                }
+                            }
+                            let fdr = if drain_after_read { drain_silent(fc, fs) } else { vec![] };
+                            let cmp = json!({"e": "c11cmp",
+                                "main": {"res": line["res"], "popped": line["popped"], "drained": obs::bytes(&main_drained), "pending": conn.pending_write()},
+                                "fresh": {"res": fres, "popped": fpopped, "drained": obs::bytes(&fdr), "pending": fc.pending_write()}});
+                            writeln!(out, "{}", cmp).unwrap();
+                        } else if line["res"]["k"] == "ParseError" {
+                            let fs = ScriptStream::new();
+                            let mut fc = HttpConnection::new(fs.clone());
+                            fc.set_payload_max_size(limit);
+                            fresh = Some((fc, fs));
+                        }
                     }
                     let is_ok = line["res"]["k"] == "Ok";
                     if !is_ok && stop_on_error && lk == "data" {
@@ -307,6 +386,7 @@ pub fn run_script(script: &Value, tags: &TagFiles, out: &mut dyn Write) -> bool 
     let unscripted = stream.0.borrow().unscripted;
     drop(held_requests);
     drop(conn);
+    drop(fresh);
     let fd_after = open_fd_count();
     line = json!({"e": "end", "run": script["run"], "fam": script["fam"], "aborted": !ok, "stopped": stopped,
                   "unscripted": unscripted, "fd_delta": fd_after as i64 - fd_base as i64});
